@@ -31,8 +31,12 @@ type AbortCase struct {
 	// Tight > 0: an extra table whose first heap page is filled so that exactly Tight-1 bytes stay free; the victim then
 	// first shortens the row stored last on that page and inserts TightIns small rows (which take the freed bytes and new
 	// slot entries) before its own statements: rolling all that back needs every byte of the page again
-	Tight    int `json:"tight,omitempty"`
-	TightIns int `json:"tight_ins,omitempty"`
+	// Others: INSERT statements of other transactions that run and commit while the victim is open (Others[i] after the
+	// victim's statement number After[i]): the victim's rows are then not the last ones stored on their pages when it is rolled back
+	Others   []dbh.Stmt `json:"others,omitempty"`
+	After    []int      `json:"after,omitempty"`
+	Tight    int        `json:"tight,omitempty"`
+	TightIns int        `json:"tight_ins,omitempty"`
 }
 
 type AbortStats struct {
@@ -191,6 +195,16 @@ func runAbort(c *AbortCase, st *AbortStats) *vf.Failure {
 		if n > 0 {
 			st.VictimWrites++
 		}
+		for oi := range c.Others {
+			if oi < len(c.After) && c.After[oi] == i-len(tightStmts) {
+				// another transaction inserts into the same tables and commits while the victim is open
+				if _, err := db.Auto(&c.Others[oi]); err == nil {
+					m.Apply(&c.Others[oi], dbh.EvalMode{})
+					work.Apply(&c.Others[oi], dbh.EvalMode{})
+					st.Classes["other-transaction-commits-inserts-meanwhile"] = true
+				}
+			}
+		}
 		for _, k := range changed(before, work, s.Table) {
 			touched[k]++
 			if touched[k] > 1 {
@@ -326,6 +340,18 @@ func GenAbort(t *rapid.T, o GenOpts) *AbortCase {
 		}
 	}
 	g.ids = saved // the victim's inserts / deletes are rolled back
+	if rapid.IntRange(0, 2).Draw(t, "others") == 0 {
+		g.insertOnly = true
+		no := rapid.IntRange(1, 3).Draw(t, "nothers")
+		for i := 0; i < no; i++ {
+			def := g.defs[rapid.IntRange(0, len(g.defs)-1).Draw(t, "otbl")]
+			if s := genDML(t, g, def, o); s != nil {
+				c.Others = append(c.Others, *s)
+				c.After = append(c.After, rapid.IntRange(0, len(c.Victim)-1).Draw(t, "oafter"))
+			}
+		}
+		g.insertOnly = false
+	}
 	c.Follow = gen(4, "nfollow")
 	frames := 3*nIdx + 8*nBtree + 12 + rapid.SampledFrom([]int{0, 6, 40}).Draw(t, "spare")
 	c.KB = frames * 4
